@@ -31,7 +31,9 @@ def G(kind, incl, VB, b, x):
         body = z3.ForAll([p_], z3.Implies(pedge(incl, p_, b), out(p_)))
     else:
         body = z3.Exists([p_], z3.And(pedge(incl, p_, b), out(p_)))
-    return z3.If(has, body, z3.Select(ABE, x))
+    # a block without predecessors (the entry) starts from what is assigned BEFORE the entry: definitely (ABE)
+    # resp. maybe (MBE) — the property: "assigned on all, respectively some, paths from the entry"
+    return z3.If(has, body, z3.Select(ABE if kind == "def" else MBE, x))
 
 
 def hyps(incl, ALL):
@@ -215,8 +217,8 @@ def run_forward(chk, e):
             if p.kind != "return" or not isinstance(p.value, SDict):
                 return z3.BoolVal(False)
             return post(incl, p.value, ALL)
-        chk.prove_paths(f"ForwardAnalysis.run[assignment,include_unreachable={incl}]:fixpoint/\\extremal(def:greatest-in-all_vars,maybe:per-start-value)",
-                        paths, post_run, func=f"{MOD}:ForwardAnalysis.run")
+        chk.prove_paths(f"ForwardAnalysis.run[assignment,include_unreachable={incl}]:fixpoint/\\extremal(def:greatest-in-all_vars;maybe:least-above-what-is-maybe-assigned-before-the-entry)",
+                        paths, post_run, func=f"{MOD}:ForwardAnalysis.run", replay=lambda m_: {"script": REPLAY_MAYBE, "input": {}})
         chk.record(f"ForwardAnalysis.run[{incl}]:loop-cut-and-exit-paths-both-explored",
                    any(p.kind == "cut" for p in paths) and any(p.kind == "return" for p in paths), str([p.kind for p in paths]), kind="reachability")
     for incl in (True, False):
@@ -245,4 +247,27 @@ try:
 except Exception as ex:
     out = {"violates": False, "error": repr(ex)[:300]}
 print(json.dumps(out))
+'''
+
+
+REPLAY_MAYBE = r'''
+from guppylang_internals.cfg.cfg import CFG
+from guppylang_internals.cfg.bb import VariableStats
+def build(loop):
+    cfg = CFG()
+    if not loop:
+        entry, B, exit_ = cfg.new_bb(), cfg.new_bb(), cfg.new_bb()
+        cfg.link(entry, B); cfg.link(B, exit_); stats = {B: {"y": None}}
+    else:
+        entry, H, B, exit_ = cfg.new_bb(), cfg.new_bb(), cfg.new_bb(), cfg.new_bb()
+        cfg.link(entry, H); cfg.link(H, exit_); cfg.link(H, B); cfg.link(B, H); stats = {B: {"y": None}}
+    cfg.entry_bb, cfg.exit_bb = entry, exit_
+    for b in cfg.bbs:
+        b._vars = VariableStats(dict(stats.get(b, {})), {})
+        b.compute_variable_stats = (lambda b=b: b._vars)
+    cfg.analyze({"a"}, {"a", "m"}, [])
+    return {b.idx: sorted(cfg.maybe_ass_before[b]) for b in cfg.bbs if b.reachable or b is entry}
+a, b = build(False), build(True)
+bad = [k for d in (a, b) for k, v in d.items() if "m" not in v]
+print(json.dumps({"violates": bool(bad), "maybe_assigned_loop_free": a, "maybe_assigned_with_loop": b, "required": "`m` (maybe assigned before the entry) is maybe assigned at every block reachable from the entry"}))
 '''
